@@ -263,7 +263,22 @@ func (t *Thread) end(args []Value, err error, exception interface{}) {
 		// to-be-closed handlers, so just discard them (as CallContext does).
 		t.closeStack.truncate(0)
 	} else {
-		err = t.cleanupCloseStack(nil, 0, err) // TODO: not nil
+		func() {
+			defer func() {
+				if r := recover(); r != nil {
+					termErr, ok := r.(ContextTerminationError)
+					if !ok {
+						panic(r)
+					}
+					// A handler exhausted the quota: discard the remaining
+					// handlers and forward the termination to the resumer,
+					// exactly like a termination raised by the body.
+					t.closeStack.truncate(0)
+					exception = termErr
+				}
+			}()
+			err = t.cleanupCloseStack(nil, 0, err) // TODO: not nil
+		}()
 	}
 	t.mux.Lock()
 	caller.mux.Lock()
